@@ -18,9 +18,14 @@
    replayed against the real code before the fix and is kept as the regression test
    corpus/C19/d26_consumer_abort_full_channel.json, which now passes.
 
+   Model parameter `unlk`: true = ProcessBlock releases the tx repository's unconfirmed lock on every error
+   exit (the code); all theorems are for unlk = true (the first `true` after daf below);
+   C19_exit_without_unlock_refuted is the witness for an error exit that forgets ReleaseUnconfirmed: the
+   shutdown blocks for ever at txs.Save.
+
    Model parameter `sdrain`: true = sendOutgoing as it is (in node.go and, the same loop, in
    untrusted_node.go): after a failed socket write it keeps emptying its queue until the queue is closed;
-   all theorems are for sdrain = true (the fourth argument `true` of run / step / prompt below);
+   all theorems are for sdrain = true (the last argument `true` of run / step / prompt below);
    C19_sender_returns_refuted is the witness for a sender that returns on the first failed write: a
    state in which nothing can move any more.  The untrusted node's own Run (its reader, its sender, its 100-slot queue, its phased
    shutdown) is the same protocol in small; harness component "untrusted" runs a real UntrustedNode
@@ -42,15 +47,15 @@ From V.proofs Require Import Shutdown_Proofs Shutdown_Term_Proofs Shutdown_Witne
    exists any more in any state - in particular none that could invoke a handler - and no handler
    invocation has happened while stopped was true *)
 Theorem C19_stopped_silent : forall (cap : Z) (ucfg daf : bool) (acts : list act),
-  prompt cap ucfg daf true acts = true ->
-  let w := run cap ucfg daf true acts in
+  prompt cap ucfg daf true true acts = true ->
+  let w := run cap ucfg daf true true acts in
   stopped w = true ->
   pc_of w = RDone /\ all_dead (w_thr w) /\ d_late (w_dat w) = false.
 Proof. exact stopped_silent. Qed.
 Print Assumptions C19_stopped_silent.
 
 Theorem C19_never_late : forall (cap : Z) (ucfg daf : bool) (acts : list act),
-  prompt cap ucfg daf true acts = true -> d_late (w_dat (run cap ucfg daf true acts)) = false.
+  prompt cap ucfg daf true true acts = true -> d_late (w_dat (run cap ucfg daf true true acts)) = false.
 Proof. exact never_late. Qed.
 Print Assumptions C19_never_late.
 
@@ -58,8 +63,8 @@ Print Assumptions C19_never_late.
    from the end of the save phase until the next connection, and for ever once stopped, what is stored
    is the final in-memory data *)
 Theorem C19_saved_on_stop : forall (cap : Z) (ucfg daf : bool) (acts : list act),
-  prompt cap ucfg daf true acts = true ->
-  let w := run cap ucfg daf true acts in
+  prompt cap ucfg daf true true acts = true ->
+  let w := run cap ucfg daf true true acts in
   (pc_of w = RSave -> all_dead (w_thr w) /\ n_in (w_cnt w) = 0 /\ n_proc (w_cnt w) = 0 /\ n_un (w_cnt w) = 0) /\
   (saved_pc (pc_of w) = true -> d_disk (w_dat w) = d_mem (w_dat w)) /\
   (stopped w = true -> d_disk (w_dat w) = d_mem (w_dat w)).
@@ -73,19 +78,19 @@ Print Assumptions C19_saved_on_stop.
        request, a restart, an abort) and until stopped, some step of the run loop or of a goroutine
        is enabled *)
 Theorem C19_stop_progress : forall (cap : Z) (ucfg : bool) (acts : list act),
-  1 <= cap -> prompt cap ucfg true true acts = true ->
-  let w := run cap ucfg true true acts in
+  1 <= cap -> prompt cap ucfg true true true acts = true ->
+  let w := run cap ucfg true true true acts in
   stopping w = true -> stopped w = false ->
-  exists a, benign a = true /\ thread_act a = true /\ prompt_ok w a = true /\ step cap ucfg true true w a <> None.
+  exists a, benign a = true /\ thread_act a = true /\ prompt_ok w a = true /\ step cap ucfg true true true w a <> None.
 Proof. exact stop_progress_fixed. Qed.
 Print Assumptions C19_stop_progress.
 
 (* ... for either consumer: the only reachable stuck states are the D26 states *)
 Theorem C19_stop_progress_any : forall (cap : Z) (ucfg daf : bool) (acts : list act),
-  1 <= cap -> prompt cap ucfg daf true acts = true ->
-  let w := run cap ucfg daf true acts in
+  1 <= cap -> prompt cap ucfg daf true true acts = true ->
+  let w := run cap ucfg daf true true acts in
   stopping w = true -> stopped w = false -> d26_state cap w = false ->
-  exists a, benign a = true /\ thread_act a = true /\ prompt_ok w a = true /\ step cap ucfg daf true w a <> None.
+  exists a, benign a = true /\ thread_act a = true /\ prompt_ok w a = true /\ step cap ucfg daf true true w a <> None.
 Proof. exact stop_progress_reachable. Qed.
 Print Assumptions C19_stop_progress_any.
 
@@ -95,11 +100,11 @@ Print Assumptions C19_stop_progress_any.
        by accepted untrusted-peer messages; rank is a natural-number measure of phase, program points,
        remaining body lengths and channel fill (model/Shutdown.v `rank`) *)
 Theorem C19_stop_bounded_work : forall (cap : Z) (ucfg daf : bool) (acts acts' : list act),
-  prompt cap ucfg daf true (acts ++ acts') = true ->
-  let w := run cap ucfg daf true acts in
+  prompt cap ucfg daf true true (acts ++ acts') = true ->
+  let w := run cap ucfg daf true true acts in
   stopcall w = 2 ->
-  0 <= rank (run_from cap ucfg daf true w acts') /\
-  rank (run_from cap ucfg daf true w acts') + effective cap ucfg daf w acts' <= rank w + injected cap ucfg daf w acts'.
+  0 <= rank (run_from cap ucfg daf true true w acts') /\
+  rank (run_from cap ucfg daf true true w acts') + effective cap ucfg daf w acts' <= rank w + injected cap ucfg daf w acts'.
 Proof. exact stop_bounded_work_reachable. Qed.
 Print Assumptions C19_stop_bounded_work.
 
@@ -107,26 +112,26 @@ Print Assumptions C19_stop_bounded_work.
    "Stop all"; that goroutine is then never blocked, each of its steps brings it closer (mu_dist) and
    no other step takes it further away: under the fairness assumption the injection ends *)
 Theorem C19_injection_needs_mu : forall (cap : Z) (ucfg daf : bool) (acts : list act) (n : nat),
-  prompt cap ucfg daf true acts = true ->
-  let w := run cap ucfg daf true acts in
-  step cap ucfg daf true w (AUnMsg n) <> None ->
-  exists p f, thread w MU = TLive p f /\ p <> PWaitUn /\ step cap ucfg daf true w (AStep MU KEnd 0) <> None.
+  prompt cap ucfg daf true true acts = true ->
+  let w := run cap ucfg daf true true acts in
+  step cap ucfg daf true true w (AUnMsg n) <> None ->
+  exists p f, thread w MU = TLive p f /\ p <> PWaitUn /\ step cap ucfg daf true true w (AStep MU KEnd 0) <> None.
 Proof. exact injection_needs_mu_reachable. Qed.
 Print Assumptions C19_injection_needs_mu.
 
 Theorem C19_mu_dist_decreases : forall (cap : Z) (ucfg daf : bool) (acts : list act) (a : act) (w' : sw),
-  let w := run cap ucfg daf true acts in
-  stopping w = true -> (a = AReg MU \/ exists k n, a = AStep MU k n) -> step cap ucfg daf true w a = Some w' ->
+  let w := run cap ucfg daf true true acts in
+  stopping w = true -> (a = AReg MU \/ exists k n, a = AStep MU k n) -> step cap ucfg daf true true w a = Some w' ->
   (forall f, thread w MU <> TLive PWaitUn f) ->
   mu_dist ucfg w' < mu_dist ucfg w.
 Proof. exact mu_dist_decreases_reachable. Qed.
 Print Assumptions C19_mu_dist_decreases.
 
 Theorem C19_mu_dist_stable : forall (cap : Z) (ucfg daf : bool) (acts : list act) (a : act) (w' : sw),
-  prompt cap ucfg daf true acts = true ->
-  let w := run cap ucfg daf true acts in
+  prompt cap ucfg daf true true acts = true ->
+  let w := run cap ucfg daf true true acts in
   stopping w = true -> hard w = true ->
-  a <> AReg MU -> (forall k n, a <> AStep MU k n) -> step cap ucfg daf true w a = Some w' ->
+  a <> AReg MU -> (forall k n, a <> AStep MU k n) -> step cap ucfg daf true true w a = Some w' ->
   mu_dist ucfg w' <= mu_dist ucfg w.
 Proof. exact mu_dist_stable_reachable. Qed.
 Print Assumptions C19_mu_dist_stable.
@@ -134,11 +139,11 @@ Print Assumptions C19_mu_dist_stable.
 (* (3) from every reachable state of the code as it is, after a stop request, a schedule of at most
        rank(w) run-loop / goroutine steps reaches stopped = true *)
 Theorem C19_stop_reaches_stopped : forall (cap : Z) (ucfg : bool) (acts : list act),
-  1 <= cap -> prompt cap ucfg true true acts = true ->
-  let w := run cap ucfg true true acts in
+  1 <= cap -> prompt cap ucfg true true true acts = true ->
+  let w := run cap ucfg true true true acts in
   stopcall w = 2 ->
-  exists acts', forallb thread_act acts' = true /\ prompt_from cap ucfg true true w acts' = true /\
-                Z.of_nat (length acts') <= rank w /\ stopped (run_from cap ucfg true true w acts') = true.
+  exists acts', forallb thread_act acts' = true /\ prompt_from cap ucfg true true true w acts' = true /\
+                Z.of_nat (length acts') <= rank w /\ stopped (run_from cap ucfg true true true w acts') = true.
 Proof. exact stop_reaches_stopped_fixed. Qed.
 Print Assumptions C19_stop_reaches_stopped.
 
@@ -146,11 +151,11 @@ Print Assumptions C19_stop_reaches_stopped.
    after the stop request in which no step of the run loop or of any goroutine is enabled, and from
    which stopped is never reached whatever happens later *)
 Theorem C19_d26_refuted :
-  exists acts, prompt 100 false false true acts = true /\
-    let w := run 100 false false true acts in
+  exists acts, prompt 100 false false true true acts = true /\
+    let w := run 100 false false true true acts in
     stopcall w = 2 /\ stopped w = false /\ d26_state 100 w = true /\
-    (forall a, thread_act a = true -> step 100 false false true w a = None) /\
-    (forall acts', stopped (run_from 100 false false true w acts') = false).
+    (forall a, thread_act a = true -> step 100 false false true true w a = None) /\
+    (forall acts', stopped (run_from 100 false false true true w acts') = false).
 Proof. exact d26_refuted. Qed.
 Print Assumptions C19_d26_refuted.
 
@@ -158,10 +163,10 @@ Print Assumptions C19_d26_refuted.
    reader waiting inside Add, after Stop no action is enabled any more - of the run loop, of any goroutine,
    of the peers - except new calls of the public API by the application, which do not help *)
 Theorem C19_sender_returns_refuted :
-  exists acts, prompt 100 false true false acts = true /\
-    let w := run 100 false true false acts in
+  exists acts, prompt 100 false true true false acts = true /\
+    let w := run 100 false true true false acts in
     stopcall w = 2 /\ stopped w = false /\ pc_of w = RWaitIn /\
-    (forall a, a <> AApiTx -> step 100 false true false w a = None).
+    (forall a, a <> AApiTx -> step 100 false true true false w a = None).
 Proof. exact sender_returns_refuted. Qed.
 Print Assumptions C19_sender_returns_refuted.
 
@@ -177,14 +182,14 @@ Print Assumptions C19_sender_returns_refuted.
    - no goroutine is ever parked in a send on a closed channel (the Go panic): Add keeps the mutex while
      it waits for room and Close needs the mutex. *)
 Theorem C19_no_send_on_closed : forall (cap : Z) (ucfg daf : bool) (acts : list act) t c f,
-  thread (run cap ucfg daf true acts) t = TLive (PSend c) f -> ch_open (run cap ucfg daf true acts) c = true.
+  thread (run cap ucfg daf true true acts) t = TLive (PSend c) f -> ch_open (run cap ucfg daf true true acts) c = true.
 Proof. exact no_send_on_closed. Qed.
 Print Assumptions C19_no_send_on_closed.
 
 Theorem C19_api_after_close : forall (cap : Z) (ucfg daf : bool) (acts : list act),
-  let w := run cap ucfg daf true acts in
+  let w := run cap ucfg daf true true acts in
   x_open (w_ch w) = false -> thread w AP = TNone ->
-  exists w1 w2, step cap ucfg daf true w AApiTx = Some w1 /\ step cap ucfg daf true w1 (AStep AP KEnd 0) = Some w2 /\
+  exists w1 w2, step cap ucfg daf true true w AApiTx = Some w1 /\ step cap ucfg daf true true w1 (AStep AP KEnd 0) = Some w2 /\
                 thread w2 AP = TNone /\ w_ch w2 = w_ch w /\ w_ctl w2 = w_ctl w /\ w_cnt w2 = w_cnt w /\ w_dat w2 = w_dat w.
 Proof. exact api_after_close. Qed.
 Print Assumptions C19_api_after_close.
@@ -192,21 +197,50 @@ Print Assumptions C19_api_after_close.
 (* an Add that waits for room OUTSIDE the mutex (step_sol): Close closes the channel under a parked
    sender - "send on closed channel"; the code on the same schedule: the run loop waits at Close *)
 Theorem C19_send_outside_lock_refuted :
-  send_on_closed (run_sol 1 false true true sol_acts) = true /\
-  send_on_closed (run 1 false true true sol_acts) = false /\
-  pc_of (run 1 false true true sol_acts) = RCloseTx /\
-  step 1 false true true (run 1 false true true sol_acts) (ARun true) = None /\
-  thread (run 1 false true true sol_acts) AP = TLive (PSend CTx) 0.
+  send_on_closed (run_sol 1 false true true true sol_acts) = true /\
+  send_on_closed (run 1 false true true true sol_acts) = false /\
+  pc_of (run 1 false true true true sol_acts) = RCloseTx /\
+  step 1 false true true true (run 1 false true true true sol_acts) (ARun true) = None /\
+  thread (run 1 false true true true sol_acts) AP = TLive (PSend CTx) 0.
 Proof. exact send_outside_lock_refuted. Qed.
 Print Assumptions C19_send_outside_lock_refuted.
 
+(* Add never drops (the completeness of delivery under back-pressure, C03, rests on it): a goroutine
+   waiting for room in a channel leaves that program point only by the step that queues its item; what is
+   queued leaves the channel only by the consumer taking it (or when the run loop opens new channels at
+   the next connection, after every goroutine of the round has ended); C19_stop_progress gives the
+   goroutine its room, C19_no_send_on_closed excludes a Close under it *)
+Theorem C19_add_never_drops : forall (cap : Z) (daf : bool) w t c f k n w',
+  thread w t = TLive (PSend c) f -> step cap false daf true true w (AStep t k n) = Some w' ->
+  ch_len w' c = ch_len w c + 1 /\ thread w' t <> TLive (PSend c) f.
+Proof. intros cap daf. exact (add_never_drops cap false daf). Qed.
+Print Assumptions C19_add_never_drops.
+
+Theorem C19_only_consumer_takes : forall (cap : Z) (ucfg daf : bool) w a w' c,
+  step cap ucfg daf true true w a = Some w' -> ch_len w' c < ch_len w c ->
+  (exists k n, a = AStep (match c with COut => SO | CTx => PU end) k n) \/ (exists ok, a = ARun ok /\ pc_of w = RConnect).
+Proof. exact only_consumer_takes. Qed.
+Print Assumptions C19_only_consumer_takes.
+
+(* an error exit of ProcessBlock that keeps the tx repository's unconfirmed lock (unlk = false): the run
+   loop reaches its save phase with every goroutine gone and can never save; nothing is enabled any more
+   (except new API calls); the code on the same schedule stops *)
+Theorem C19_exit_without_unlock_refuted :
+  prompt 100 false true false true ul_acts = true /\
+  stopcall (run 100 false true false true ul_acts) = 2 /\ stopped (run 100 false true false true ul_acts) = false /\
+  pc_of (run 100 false true false true ul_acts) = RSave /\ all_dead (w_thr (run 100 false true false true ul_acts)) /\
+  (forall a, a <> AApiTx -> step 100 false true false true (run 100 false true false true ul_acts) a = None) /\
+  stopped (run 100 false true true true (ul_acts ++ [ARun true; ARun true; ARun true])) = true.
+Proof. exact exit_without_unlock_refuted. Qed.
+Print Assumptions C19_exit_without_unlock_refuted.
+
 (* D27: without the prompt-registration hypothesis both safety theorems fail (code as it is) *)
 Theorem C19_d27_refuted :
-  exists acts, prompt 100 false true true acts = false /\
-    let w := run 100 false true true acts in
+  exists acts, prompt 100 false true true true acts = false /\
+    let w := run 100 false true true true acts in
     stopped w = true /\ d_late (w_dat w) = true /\ d_disk (w_dat w) <> d_mem (w_dat w) /\
-    exists pre post, acts = pre ++ ARun true :: post /\ prompt 100 false true true pre = true /\
-                     pc_of (run 100 false true true pre) = RWaitProc /\ thread (run 100 false true true pre) PU = TSpawned.
+    exists pre post, acts = pre ++ ARun true :: post /\ prompt 100 false true true true pre = true /\
+                     pc_of (run 100 false true true true pre) = RWaitProc /\ thread (run 100 false true true true pre) PU = TSpawned.
 Proof. exact d27_refuted. Qed.
 Print Assumptions C19_d27_refuted.
 
@@ -214,10 +248,10 @@ Print Assumptions C19_d27_refuted.
    the run loop is back at its head every goroutine of the old round has ended, everything was saved,
    the in-memory data are unchanged, and the stop flags are reset. *)
 Theorem C19_restart_resumes : forall (cap : Z) (ucfg daf : bool) (acts : list act),
-  prompt cap ucfg daf true acts = true ->
-  let w := run cap ucfg daf true acts in
+  prompt cap ucfg daf true true acts = true ->
+  let w := run cap ucfg daf true true acts in
   pc_of w = RDecide -> needs w = true -> hard w = false ->
-  let w' := apply cap ucfg daf true w (ARun true) in
+  let w' := apply cap ucfg daf true true w (ARun true) in
   pc_of w' = RLoop /\ stopping w' = false /\ needs w' = false /\ stopped w' = false /\
   all_dead (w_thr w') /\ d_disk (w_dat w') = d_mem (w_dat w') /\ d_mem (w_dat w') = d_mem (w_dat w).
 Proof. exact restart_resumes. Qed.
@@ -242,7 +276,7 @@ Print Assumptions C19_reconnect_resumes.
 
 (* the scenario runner of the correspondence check only takes steps of the transition system *)
 Theorem C19_settle_reach : forall fuel listen a b c d w,
-  exists acts, settle fuel listen a b c d w = run_from scap false true true w acts.
+  exists acts, settle fuel listen a b c d w = run_from scap false true true true w acts.
 Proof. exact settle_reach. Qed.
 Print Assumptions C19_settle_reach.
 
@@ -260,8 +294,8 @@ Example C19_example_acts : list act :=
   [ARun true; ARun true] ++ regs ++ [m] ++ msg ++ [APeerClose; m] ++ down ++
   [ARun true; ARun true] ++ regs ++ [m] ++ msg ++ [AStopFlag; AStopReq] ++ down ++ [ARun true].
 Example C19_example :
-  prompt 100 false true true C19_example_acts = true /\
-  let w := run 100 false true true C19_example_acts in
+  prompt 100 false true true true C19_example_acts = true /\
+  let w := run 100 false true true true C19_example_acts in
   stopped w = true /\ w_gen w = 2 /\ d_calls (w_dat w) = 6 /\ d_mem (w_dat w) = 4 /\ d_disk (w_dat w) = 4 /\
   d_late (w_dat w) = false /\ stopcall w = 2.
 Proof. vm_compute. repeat split; reflexivity. Qed.
@@ -270,8 +304,8 @@ Proof. vm_compute. repeat split; reflexivity. Qed.
    C19_stop_reaches_stopped hold and its bound is 17 steps *)
 Example C19_example_stop_requested :
   let acts := firstn 28 C19_example_acts ++ [AStopFlag; AStopReq] in
-  prompt 100 false true true acts = true /\ stopcall (run 100 false true true acts) = 2 /\ stopped (run 100 false true true acts) = false /\
-  rank (run 100 false true true acts) = 17.
+  prompt 100 false true true true acts = true /\ stopcall (run 100 false true true true acts) = 2 /\ stopped (run 100 false true true true acts) = false /\
+  rank (run 100 false true true true acts) = 17.
 Proof. vm_compute. repeat split; reflexivity. Qed.
 
 (* Stop arriving INSIDE the shutdown that precedes a reconnect: the trusted connection is lost,
@@ -284,13 +318,13 @@ Example C19_example_stop_in_restart_shutdown :
   let pre := [ARun true; ARun true; AReg MI; AReg RT; AReg SO; AReg PB; AReg PU; AReg CD; m; APeerClose; m; ARun true; ARun true] in
   let post := [AStep RT KEnd 0; AStep PB KEnd 0; AStep CD KEnd 0; ARun true; ARun true; ARun true;
                AStep SO KEnd 0; AStep SO KEnd 0; AStep SO KEnd 0; AStep PU KEnd 0; ARun true; ARun true; ARun true; ARun true] in
-  let w1 := run 100 false true true pre in
-  let w2 := run 100 false true true (pre ++ [AStopFlag; AStopReq] ++ post) in
-  prompt 100 false true true (pre ++ [AStopFlag; AStopReq] ++ post) = true /\
+  let w1 := run 100 false true true true pre in
+  let w2 := run 100 false true true true (pre ++ [AStopFlag; AStopReq] ++ post) in
+  prompt 100 false true true true (pre ++ [AStopFlag; AStopReq] ++ post) = true /\
   pc_of w1 = RWaitIn /\ stopping w1 = true /\ needs w1 = true /\ hard w1 = false /\ w_conn w1 = CNone /\
   stopped w2 = true /\ w_gen w2 = 1 /\ pc_of w2 = RDone /\
   (* without the Stop the same schedule restarts: the run loop is about to connect again *)
-  pc_of (run 100 false true true (pre ++ post)) = RConnect /\ stopped (run 100 false true true (pre ++ post)) = false.
+  pc_of (run 100 false true true true (pre ++ post)) = RConnect /\ stopped (run 100 false true true true (pre ++ post)) = false.
 Proof. vm_compute. repeat split; reflexivity. Qed.
 
 (* the scenario model on the two new scenario kinds: Stop inside the restart shutdown (hit, returned,
@@ -321,6 +355,18 @@ Example C19_example_api_scenarios :
   = [[0]; [0; 1; 0]; [0; 1; 1; 0]; [0; 2]; [0; 0; 1]; [0; 0; 0]; [0; 1; 1]; [0; 0; 0]; [0; 0; 0; 0; 1; 1; 1; 1; 0; 0]; [0];
      [0; 1; 0]; [0; 1; 1; 0]; [0; 1]; [0; 0]; [0; 1]; [0; 1; 1]; [0; 0; 0]; [0; 0; 0; 0; 1; 2; 2; 1; 0; 0]].
 Proof. vm_compute. repeat split; reflexivity. Qed.
+
+(* a block with a new relevant tx whose spent output cannot be fetched (ProcessBlock fails, processBlocks
+   leaves), then Stop: Stop and Run return, everything saved; and 151 distinct relevant txs under
+   back-pressure (the first sits in a held handler, 100 fill the channel, monitorIncoming waits): all 151
+   delivered after the release *)
+Example C19_example_round5_scenarios :
+  srun [SStart; SAccept; SVersion; SHold 100; STxBlock 1 true; SRelease true; SStop; SQuiet; SStored; SAnnounced]
+  = [[0]; [0; 1; 0]; [0; 1; 1; 0]; [0]; [0; 1; 1; 0]; [0]; [0; 1; 1]; [0; 0; 0]; [0; 1; 1; 1; 1; 0; 0; 1; 0; 0]; [0; 1; 1]] /\
+  srun [SStart; SAccept; SVersion; SSync; SHold 1; STx 1 true; SBurstRel 150; SRelease false; SDelivered 151; SStop; SQuiet; SStored]
+  = [[0]; [0; 1; 0]; [0; 1; 1; 0]; [0; 1]; [0]; [0; 1]; [0; 1]; [0]; [0; 151]; [0; 1; 1]; [0; 0; 0];
+     [0; 0; 0; 0; 1; 151; 151; 1; 0; 0]].
+Proof. vm_compute. split; reflexivity. Qed.
 
 (* the scenario model (code as it is) on the regression scenario of D26: the consumer fails while the
    channel is full and monitorIncoming waits inside Add; the node stops by itself, Stop returns, nothing
